@@ -2,21 +2,14 @@
    Statements only, each closed by `exact <lemma>`, with Print Assumptions beneath.
 
    Vocabulary (C18/Model.v): [handle_commit] = Service.handleCommitMessage with
-   verifyCommitMessageJustification / verifyJustification inlined, as repaired by
-   fixes/C18-1-duplicate-precommits.patch and fixes/C18-2-forged-equivocators.patch;
+   verifyCommitMessageJustification / verifyJustification inlined, as repaired by the three
+   "fix:" commits (count each authority once; only correctly signed precommits make an
+   equivocator; fixes/C18-3-commit-threshold-strict.patch: strictly more than floor(2n/3));
    [spec_count c auths m] = the number of DISTINCT current authorities k such that the commit
    lists a precommit correctly signed by k (for the commit's round and the current set) for the
    target or a descendant of it, or lists two different correctly signed precommits of k
    (an equivocator); [supermajority] = 3 * spec_count > 2 * |authority set|.
-
-   FULL STATEMENT (the property text):
-     forall c auths setid has hf m eff,
-       handle_commit c auths setid has hf m = (HAccepted, eff) -> supermajority c auths m = true.
-   It is FALSE of the code, also after the two fixes: the acceptance test is
-   `validAndEqv < threshold` with threshold = floor(2n/3), so a commit backed by exactly
-   floor(2n/3) authorities is accepted (C18_threshold_refuted).  The package's own tests
-   (-tags integration) expect that behaviour, so it is a recorded finding
-   (commit-threshold-not-strict) and the theorem is proved outside that class. *)
+   [handle_commit_prefix] / [verify_commit_prefix] = the pinned tree before the repairs. *)
 From Coq Require Import List NArith Bool.
 From C18 Require Import Model Proofs.
 Import ListNotations.
@@ -36,28 +29,31 @@ Proof.
 Qed.
 Print Assumptions C18_count_exact.
 
-(* verifyCommitMessageJustification succeeds exactly when its structural checks pass and at
-   least [thr] distinct authorities back the commit *)
+(* verifyCommitMessageJustification succeeds exactly when its structural checks pass and more
+   than [thr] distinct authorities back the commit *)
 Theorem C18_verify_iff : forall c auths setid thr hf m,
   verify_commit c auths setid thr hf m = ROk tt <->
   prechecks c setid hf m = ROk tt /\
   (exists st, loop c auths (cm_vote m) l0 (entries m) = ROk st) /\
-  thr <= spec_count c auths m.
+  thr < spec_count c auths m.
 Proof. exact verify_commit_ok. Qed.
 Print Assumptions C18_verify_iff.
 
-(* An accepted commit is backed by at least floor(2n/3) distinct authorities, and by a
-   supermajority unless it lies in the class of the recorded finding (exactly floor(2n/3)). *)
-Theorem C18_accept_sound_partial : forall c auths setid has hf m eff,
-  handle_commit c auths setid has hf m = (HAccepted, eff) ->
-  threshold auths <= spec_count c auths m
-  /\ (threshold_guard c auths m = false -> supermajority c auths m = true).
-Proof.
-  intros c auths setid has hf m eff H. split.
-  - exact (handle_accepted_count _ _ _ _ _ _ _ H).
-  - exact (handle_accepted_supermajority_partial _ _ _ _ _ _ _ H).
-Qed.
-Print Assumptions C18_accept_sound_partial.
+(* THE PROPERTY: a commit is accepted (finalises its target) exactly when the structural checks
+   pass and more than two thirds of the current authority set back it *)
+Theorem C18_accept_iff : forall c auths setid has hf m,
+  (exists eff, handle_commit c auths setid has hf m = (HAccepted, eff)) <->
+  hdr_num c (v_hash (cm_vote m)) = Some (v_num (cm_vote m)) /\ has = false /\
+  prechecks c setid hf m = ROk tt /\
+  (exists st, loop c auths (cm_vote m) l0 (entries m) = ROk st) /\
+  supermajority c auths m = true.
+Proof. exact handle_accepted_supermajority_iff. Qed.
+Print Assumptions C18_accept_iff.
+
+Theorem C18_accept_sound : forall c auths setid has hf m eff,
+  handle_commit c auths setid has hf m = (HAccepted, eff) -> supermajority c auths m = true.
+Proof. exact handle_accepted_supermajority. Qed.
+Print Assumptions C18_accept_sound.
 
 (* Any commit that is not accepted finalises nothing and stores no precommits; the only block
    ever finalised is the commit's target, for the commit's round and the current set. *)
@@ -75,30 +71,30 @@ Print Assumptions C18_reject_no_effect.
 
 (* The predicate the correspondence check evaluates on the implementation's observables
    ([prop_holds]: finalise only on a supermajority, exactly the target; a commit that falls short
-   returns an error and finalises nothing) holds of the model on every input outside the
-   finding's class. *)
-Theorem C18_prop_partial : forall c auths setid has hf m r eff,
+   returns an error and finalises nothing) holds of the model on every input. *)
+Theorem C18_prop : forall c auths setid has hf m r eff,
   handle_commit c auths setid has hf m = (r, eff) ->
-  threshold_guard c auths m = false ->
   prop_holds c auths setid m has (returns_nil r) (fin_calls eff) = true.
-Proof. exact handle_prop_partial. Qed.
-Print Assumptions C18_prop_partial.
+Proof. exact handle_prop. Qed.
+Print Assumptions C18_prop.
 
-(* the finding: with four authorities, two honest precommits are accepted *)
-Theorem C18_threshold_refuted : exists c auths setid has hf m eff,
-  handle_commit c auths setid has hf m = (HAccepted, eff)
-  /\ supermajority c auths m = false /\ threshold_guard c auths m = true.
+(* the pinned tree: with four authorities, two honest precommits were accepted
+   (`validAndEqv < threshold`, threshold = floor(2n/3)); exactly floor(2n/3) backers never are a
+   supermajority *)
+Theorem C18_prefix_threshold_refuted : exists c auths setid has hf m eff,
+  handle_commit_prefix c auths setid has hf m = (HAccepted, eff)
+  /\ supermajority c auths m = false
+  /\ handle_commit c auths setid has hf m = (HRejected EMinVotes, no_effect).
 Proof.
   exists w_chain, w_auths, 0, false, 0, w_threshold, (mkEff (Some (1, 1, 0)) (Some (1, 0)) false).
-  exact threshold_witness.
+  destruct threshold_witness as [H1 [H2 [_ H4]]]. auto.
 Qed.
-Print Assumptions C18_threshold_refuted.
+Print Assumptions C18_prefix_threshold_refuted.
 
-(* the guard class never is a supermajority: the finding is not wider than the defect *)
-Theorem C18_guard_exact : forall c auths m,
-  threshold_guard c auths m = true -> supermajority c auths m = false.
-Proof. exact guard_no_supermajority. Qed.
-Print Assumptions C18_guard_exact.
+Theorem C18_at_threshold_not_supermajority : forall c auths m,
+  at_threshold c auths m = true -> supermajority c auths m = false.
+Proof. exact at_threshold_not_supermajority. Qed.
+Print Assumptions C18_at_threshold_not_supermajority.
 
 (* the pinned tree before the fixes: one authority's precommit listed three times is accepted
    (one backer, threshold two), and so is one honest precommit plus two authorities listed
